@@ -166,6 +166,7 @@ structure GCtx.OK (G : GCtx) : Prop where
   gloc_ge : ∀ n ∈ G.gnames, ∀ a, G.gloc n = some a → 2 ≤ a
   gloc_some : ∀ n ∈ G.gnames, ∃ a, G.gloc n = some a
   const_ge : ∀ v l j k, (v, l) ∈ G.consts → G.env.ds[j]? = some (.label k l) → 2 ≤ G.env.addr j / 4
+  const_data : ∀ v l j k, (v, l) ∈ G.consts → G.env.ds[j]? = some (.label k l) → G.env.ds[j + 1]? = some (.data v)
   code_lo : ∀ w, G.lo ≤ w → G.env.isCode w = false
   code_1 : G.env.isCode 1 = false
   top : G.spv + 2 < memWords
